@@ -3,6 +3,7 @@ import SafeC.DispatchAll
 import SafeC.DriverHandlers
 import SafeC.DriverFmt
 import SafeC.DriverAlloc
+import SafeC.DriverNorm
 /-!
 `safec_model`: reads op lines (see harness/hx.c), runs the Lean model of the named entry point
 on the same memory layout, prints the model's observation line.
@@ -26,6 +27,7 @@ def processLine (line : String) : String := Id.run do
   if let some f := lookup m "fmtq" then
     if (lookup m "fn").isNone then return fmtLine id f
   if let some k := lookup m "alloc" then return allocLine id k m
+  if let some k := lookup m "uni" then return Uni.uniLine id k m
   let some fn := lookup m "fn" | return s!"id={id} err=badop"
   let slack := (lookup m "slack").getD "1" != "0"
   let mut regs : Array Region := #[]
